@@ -374,33 +374,32 @@ theorem uintOfInt_pos (i : Int) (h1 : 0 < i) (h2 : i < (two63 : Int)) : 1 ≤ ui
   rw [this]; omega
 
 /-- **sampler_floor** — every sampler's rate is at least 1 whenever it says "keep", given only
-that its inputs are Go `int`s: deterministic (`≤ 1 ⇒ 1`), the dynsampler family (`< 1 ⇒ 1` after
-the `uint` conversion — whatever dynsampler returns, even a negative number), rules (`keep`
-requires `SampleRate > 0`). -/
+that its inputs are Go `int`s: deterministic (`≤ 1 ⇒ 1`), the dynsampler family (the dynsampler's
+answer is floored at 1 before the `uint` conversion — whatever it returns, even a negative
+number), rules (`keep` requires `SampleRate > 0`). -/
 theorem sampler_floor (i : Int) (hhi : i < (two63 : Int)) :
     1 ≤ deterministicRate i ∧ 1 ≤ dynRate i ∧
-    (∀ drop draw, rulesKeep drop i draw = true → 1 ≤ rulesRate i) ∧
-    (∀ rate, dynOutcome i = some rate → 1 ≤ rate) := by
-  have hdyn : 1 ≤ dynRate i := by
-    unfold dynRate
-    by_cases h : uintOfInt i < 1
-    · simp [h]
-    · simp only [h, if_false]; omega
-  refine ⟨?_, hdyn, ?_, ?_⟩
-  rotate_left 2
-  · intro rate h
-    unfold dynOutcome at h
-    split at h
-    · exact absurd h (by simp)
-    · injection h with h; rw [← h]; exact hdyn
+    (∀ drop draw, rulesKeep drop i draw = true → 1 ≤ rulesRate i) := by
+  refine ⟨?_, ?_, ?_⟩
   · unfold deterministicRate
     by_cases h : i ≤ 1
+    · simp [h]
+    · simp only [h, if_false]; exact uintOfInt_pos i (by omega) hhi
+  · unfold dynRate
+    by_cases h : i < 1
     · simp [h]
     · simp only [h, if_false]; exact uintOfInt_pos i (by omega) hhi
   · intro drop draw hk
     unfold rulesKeep at hk
     simp only [Bool.and_eq_true, decide_eq_true_eq] at hk
     exact uintOfInt_pos i hk.1.2 hhi
+
+/-- the floored dynsampler answer is passed on unchanged when it is a positive `int` -/
+theorem dynRate_pos (i : Int) (h1 : 1 ≤ i) (hhi : i < (two63 : Int)) : (dynRate i : Int) = i := by
+  unfold dynRate uintOfInt
+  have h : ¬ i < 1 := by omega
+  have : i % (two64 : Int) = i := Int.emod_eq_of_lt (by omega) (by unfold two63 two64 at *; omega)
+  simp only [h, if_false, this]; omega
 
 /-- in-range client rates pass the router's conversions unchanged, an absent/zero batch rate
 becomes 1 (`uint(int64)`, `getSampleRate`) -/
@@ -423,7 +422,6 @@ example : (merge 0 10 false).rate = 10 ∧ (merge 0 10 false).original = none :=
 example : (merge 3 7 false).rate = 21 ∧ (merge 3 7 false).final = some 21 ∧ (merge 3 7 false).original = some 3 := by decide
 example : (merge 2147483647 4294967295 false).rate = 2147483647 * 4294967295 := by decide
 example : (merge 5 4294967296 false).rate = 5 * 4294967296 := by decide
-example : dynRate (-3) ≥ 1 ∧ dynRate 0 = 1 ∧ deterministicRate 0 = 1 ∧ deterministicRate 10 = 10 := by decide
-example : dynOutcome 0 = some 1 ∧ dynOutcome 7 = some 7 ∧ dynOutcome (-1) = none := by decide
+example : dynRate (-3) = 1 ∧ dynRate 0 = 1 ∧ dynRate 7 = 7 ∧ deterministicRate 0 = 1 ∧ deterministicRate 10 = 10 := by decide
 
 end Refinery.Props.C04
